@@ -161,6 +161,12 @@ def fixedarray_search(part, N):
             S.attempt(base + " %s 2.0" % opn, lambda: op(f, 2.0), True, f)
             # (a number divided by an array holding zeros may raise ZeroDivisionError: not a size matter)
             S.attempt("2.0 %s " % opn + base, lambda: op(2.0, f), None if "/" in opn else True, f)
+        # a 2-d ndarray as the other operand (broadcasting adds an axis) or as the values of a copy: whatever comes out
+        # still has len(values) == dimension, or the attempt is refused
+        S.attempt(base + " * np.array([[1.0], [2.0]])", lambda: f * np.array([[1.0], [2.0]]), None, f)
+        S.attempt("np.array([[1.0], [2.0]]) + " + base, lambda: np.array([[1.0], [2.0]]) + f, None, f)
+        S.attempt(base + ".CreateCopy(values=np.ones((2, %d)))" % d, lambda: f.CreateCopy(values=np.ones((2, d))), None, f)
+        S.attempt(base + ".CreateCopy(values=np.ones((%d, 2)))" % d, lambda: f.CreateCopy(values=np.ones((d, 2))), None, f)
         if simple:  # (derived * derived would grow the unit without bound)
             S.attempt(base + " * " + base, lambda: f * f, True, f)
         # ChangingIndex / IndexAsScalar
